@@ -676,10 +676,10 @@ fn main() {
     let ex = if thorough {
         Explorer { depth: 12, max_dfs: 1500, random: 200 }
     } else {
-        Explorer { depth: 6, max_dfs: 40, random: 12 }
+        Explorer { depth: 6, max_dfs: 60, random: 20 }
     };
     let mut rng = Rng::new(opts.seed ^ 0x00C1_3C13);
-    let nprog = if thorough { 400 } else { 70 };
+    let nprog = if thorough { 400 } else { 120 };
     let mut index = 0usize;
     let mut progs: Vec<String> = FIXED_PROGRAMS.iter().map(|s| s.to_string()).collect();
     while progs.len() < nprog {
